@@ -7,7 +7,7 @@
 //     PRE = none | TREE        RES = (ok TREE) | (panic "msg")      LAYER as in c18.rs
 #[path = "../common.rs"]
 mod common;
-use affinitree::distill::builder::{afftree_from_layers, Layer};
+use affinitree::distill::builder::{afftree_from_layers, read_layers, Layer};
 use affinitree::linalg::affine::{AffFunc, Polytope};
 use affinitree::linalg::polyhedron::PolytopeStatus;
 use affinitree::linalg::verif_hook::{self, Event, Fault};
@@ -228,12 +228,66 @@ fn net_case(r: &mut Rng, id: usize, tier: &str, out: &mut String) {
     writeln!(out, "(case {} net {} {} (layers {}) {} {} {})", id, n, pre_s, ls.join(" "), rs, sx_log(&log), pts).unwrap();
 }
 
+/// the shipped networks (real f64 weights): distilled as they are; evaluate() on sampled inputs is compared with the
+/// exact-rational network semantics up to rounding by the runner.  (case id shipped NAME IN (layers ..) (size nodes terminals) (pts ..))
+fn shipped_case(r: &mut Rng, id: usize, rel: &str, npts: usize, out: &mut String) {
+    let repo = std::env::var("VERIF_REPO_PATH").unwrap_or("/repo".to_string());
+    let path = std::path::Path::new(&repo).join(rel);
+    let layers = match catch(AssertUnwindSafe(|| read_layers(&path))) {
+        Ok(Ok(l)) => l,
+        _ => {
+            writeln!(out, "(case {} shipped {} unreadable)", id, quote(rel)).unwrap();
+            return;
+        }
+    };
+    let n = match layers.iter().find_map(|l| if let Layer::Linear(a) = l { Some(a.indim()) } else { None }) {
+        Some(n) => n,
+        None => return,
+    };
+    let ls: Vec<String> = layers.iter().map(sx_layer).collect();
+    let l2 = layers.clone();
+    let res = catch(AssertUnwindSafe(move || afftree_from_layers(n, &l2, None)));
+    match res {
+        Ok(t) => {
+            let mut pts = Vec::new();
+            for k in 0..npts {
+                // inputs of different scales: lattice points, data-like positive values, and small perturbations of 0
+                let scale = [1.0, 4.0, 0.125, 8.0][k % 4];
+                let x = Array1::from_iter((0..n).map(|_| (r.range(-16, 16) as f64) / 8.0 * scale));
+                pts.push(sx_eval_pt(&t, &x));
+            }
+            writeln!(
+                out,
+                "(case {} shipped {} {} (layers {}) (size {} {}) (pts {}))",
+                id,
+                quote(rel),
+                n,
+                ls.join(" "),
+                t.len(),
+                t.tree.num_terminals(),
+                pts.join(" ")
+            )
+            .unwrap();
+        }
+        Err(m) => writeln!(out, "(case {} shipped {} {} (layers {}) (panic {}))", id, quote(rel), n, ls.join(" "), quote(&m)).unwrap(),
+    }
+}
+
 fn main() {
     silence_panics();
     let argv: Vec<String> = std::env::args().collect();
     let args = parse_args(&argv);
     let mut r = Rng::new(args.seed ^ 0xC01);
     let mut out = String::new();
+    // shipped networks: first shard only (seeds are seed*1000 + shard); iris in both tiers, ecoli in the thorough tier
+    if args.seed % 1000 == 0 {
+        let mut rs = r.fork();
+        shipped_case(&mut rs, 900000, "res/nn/iris.npz", 40, &mut out);
+        shipped_case(&mut rs, 900001, "tests/iris_44.npz", 40, &mut out);
+        if args.tier == "thorough" {
+            shipped_case(&mut rs, 900002, "res/nn/ecoli.npz", 60, &mut out);
+        }
+    }
     for id in 0..args.n {
         let mut rc = r.fork();
         net_case(&mut rc, id, &args.tier, &mut out);
